@@ -368,14 +368,33 @@ func c04Accepted(c *lib.Ctx, idx uint64) {
 	case 0:
 		b = c07Plan(rng, idx).Bytes()
 	case 1:
+		// "A file that Encode produced passes CheckIntegrity": whatever the destination's
+		// dynamic type and whether or not the header carries a CRC.
 		f, _, arch := genRoundTripFile(rng, idx, false)
 		if f == nil {
 			return
 		}
-		out, err, o := lib.GuardedEncode(f, archOrder(arch))
-		if err != nil || o.Panicked {
+		kind := int(idx/4) % 5
+		var out []byte
+		var err error
+		o := lib.Outcome{}
+		if kind == 4 {
+			out, err, o = lib.GuardedEncode(f, archOrder(arch))
+		} else {
+			o = lib.Guard(func() { out, err = encodeInto(kind, f, archOrder(arch), nil) })
+		}
+		if err != nil || o.Panicked || out == nil {
 			return // encodability is C05's subject
 		}
+		c.SetInflight(out)
+		var ierr error
+		io := lib.Guard(func() { ierr = fit.CheckIntegrity(bytes.NewReader(out), false) })
+		c.Eval()
+		if io.Panicked || ierr != nil {
+			c.Violation(out, "Encode (destination kind %d, header size %d) returned nil but CheckIntegrity rejects what it wrote: %v %s", kind, f.Header.Size, ierr, io.Panic)
+			return
+		}
+		c.Count(fmt.Sprintf("encoded_files_passing_integrity_hdr%d", f.Header.Size), 1)
 		b = out
 	default:
 		files := Corpus()
